@@ -36,6 +36,8 @@ Next == /\ n < MaxLen
            \/ /\ Ordinary /\ Step([k |-> "DEPHASE"], Dephase(b))
               /\ ghostPh' = [ghostPh EXCEPT ![b.act] = IF @ = <<>> THEN @ ELSE Tail(@)]
               /\ UNCHANGED <<labels, emits>>
+           \/ \E c \in {0, 1} : /\ Ordinary /\ c # b.cpu
+                                  /\ Step([k |-> "CPU", c |-> c], Cpu(b, c, "code", 0)) /\ UNCHANGED <<labels, emits, ghostPh>>
            \/ /\ Ordinary /\ Len(b.saveStk) < MaxDepth
               /\ Step([k |-> "SAVE"], Save(b)) /\ UNCHANGED <<labels, emits, ghostPh>>
            \/ /\ Ordinary /\ CanRestore(b)
@@ -57,7 +59,7 @@ SegIsolation ==
        b.pc[s] = pre.pc[s] /\ b.ph[s] = pre.ph[s] /\ b.phStk[s] = pre.phStk[s]
 \* a switch of the active segment never moves a counter except loading the start address on first use
 SwitchKeepsCounters ==
-  last.k \in {"SEGMENT", "RESTORE"} => \A s \in AllSegs : pre.used[s] => b.pc[s] = pre.pc[s] /\ b.ph[s] = pre.ph[s]
+  last.k \in {"SEGMENT", "RESTORE", "CPU"} => \A s \in AllSegs : pre.used[s] => b.pc[s] = pre.pc[s] /\ b.ph[s] = pre.ph[s]
 \* labels / $ read load address + active phase offset
 LabelIsExec == last.k = "LABEL" => labels[Len(labels)].v = b.pc[b.act] + b.ph[b.act]
 \* DEPHASE restores the offset in force before the matching PHASE (ghost stack), 0 on an empty stack
@@ -76,7 +78,10 @@ AlignIsNextMultiple == last.k = "ALIGN" =>
 \* reservations and data advance the counter by their size
 AdvanceBySize == (last.k \in {"EMIT", "RESERVE"} /\ ~InUnion(pre)) => Load(b) = Load(pre) + last.n /\ b.ph = pre.ph
 \* SAVE/RESTORE reinstate the saved segment in LIFO order
-SaveRestoreLIFO == last.k = "RESTORE" => b.act = pre.saveStk[1].seg /\ b.saveStk = Tail(pre.saveStk)
+SaveRestoreLIFO == last.k = "RESTORE" => /\ b.act = pre.saveStk[1].seg /\ b.cpu = pre.saveStk[1].cpu
+                                          /\ b.saveStk = Tail(pre.saveStk) /\ b.pc = pre.pc /\ b.ph = pre.ph
+\* the CPU statement enters the CODE segment of the new target and keeps every counter
+CpuEntersCode == last.k = "CPU" => b.act = "code" /\ b.cpu = last.c /\ (\A s \in AllSegs : pre.used[s] => b.pc[s] = pre.pc[s])
 \* nothing inside a STRUCT/UNION body reaches the code file
 StructEmitsNothing == \A i \in 1..Len(emits) : emits[i].seg # StructSeg
 \* a structure body starts at offset 0; union members all start at 0; the length is total resp. maximum
